@@ -146,8 +146,32 @@ func doStep(n *node.Node, s *Step) error {
 		if !bytes.Equal(n.Tip().Header.ID, b.Header.ID) {
 			return fmt.Errorf("block not accepted")
 		}
+	case "restore":
+		// what restoreBlocks does after a failed chain switch: the temporary block above the tip is applied again and
+		// its temporary copy removed (processValidated with removeTemp)
+		tb, err := n.Chain.DataAccess().GetTempBlocks()
+		if err != nil {
+			return err
+		}
+		for _, x := range tb {
+			if x.Header.Height == n.Tip().Header.Height+1 {
+				if err := n.Ex.VerifProcessValidated(x, false, true); err != nil {
+					return err
+				}
+				return nil
+			}
+		}
+		return fmt.Errorf("no temporary block above the tip")
 	case "delete":
-		return n.Ex.VerifDeleteBlock(n.Tip(), s.SaveTemp)
+		err := n.Ex.VerifDeleteBlock(n.Tip(), s.SaveTemp)
+		if !s.Ok {
+			// the script expects the refusal (tip at or below the finalized height): nothing changes
+			if err == nil {
+				return fmt.Errorf("delete at the finalized height was not refused")
+			}
+			return nil
+		}
+		return err
 	}
 	return nil
 }
@@ -301,6 +325,10 @@ func main() {
 		}
 		shapes[shape] = true
 		scripts = append(scripts, s)
+		if last.Op == "delete" && last.SaveTemp {
+			// the same history followed by the restoration of the removed block from its temporary copy
+			scripts = append(scripts, append(append([]Step{}, s...), Step{Op: "restore"}))
+		}
 		if len(scripts) >= maxScripts {
 			break
 		}
